@@ -218,7 +218,7 @@ def _worker(job):
     st = core.new_stats()
     out = dict(harness=hname, shape=shape, status="ok", stats=st, module=modname)
     t0 = time.time()
-    budget = int(getattr(h, 'budget_s', 0) or int(os.environ.get("VERIF_SHAPE_BUDGET_S", "240")))
+    budget = int(getattr(h, 'budget_s', 0) or _default_budget())
 
     def _alarm(signum, frame):
         raise core.Inconclusive("shape time budget of %d s exceeded" % budget)
@@ -245,14 +245,28 @@ def _worker(job):
         out['status'] = "inconclusive"
         out['detail'] = str(e)
     except Exception as e:
-        out['status'] = "error"
-        out['detail'] = "%s: %s\n%s" % (type(e).__name__, e, traceback.format_exc()[-1500:])
+        if "shape time budget" in str(e):
+            # the alarm fired inside a ctypes callback (z3): the budget exception arrives wrapped
+            out['status'] = "inconclusive"
+            out['detail'] = "shape time budget of %d s exceeded" % budget
+        else:
+            out['status'] = "error"
+            out['detail'] = "%s: %s\n%s" % (type(e).__name__, e, traceback.format_exc()[-1500:])
     finally:
         signal.alarm(0)
     out['wall'] = time.time() - t0
     out['sources'] = dict(rewrite.loaded_sources)
     out['stubs'] = sorted(natives.stub_uses)
     return out
+
+
+def _default_budget():
+    """per-shape wall-clock budget: 240 s in the quick tier, 900 s in the thorough tier (deeper shapes, and the
+    tier is meant to be run when the time is available)"""
+    v = os.environ.get("VERIF_SHAPE_BUDGET_S")
+    if v:
+        return int(v)
+    return 900 if os.environ.get("VERIF_TIER", "quick") == "thorough" else 240
 
 
 def _worker_loop(conn, mem_bytes):
@@ -298,7 +312,7 @@ def run_pysym_grid(res, modname, jobs, chunks=1):
     nproc = max(1, min(NPROC, len(jobs)))
     ctxm = multiprocessing.get_context("fork")
     mem = int(os.environ.get("VERIF_WORKER_MEM_GB", "6")) << 30
-    default_budget = int(os.environ.get("VERIF_SHAPE_BUDGET_S", "240"))
+    default_budget = _default_budget()
     grace = 90
     pending = list(reversed(jobs))
     workers = {}        # conn -> dict(proc, job, t0, done)
